@@ -208,7 +208,7 @@ def check_b64(crate, rep, tag=""):
                 leaves = Tracer(cb).operand(t["args"][1])
                 if leaves and all(l.kind == "agg" and l.detail[2] == "Indifferent" for l in leaves):
                     okp = True
-        key = "C20.B64:decode:padding-indifferent:%s%s" % (cdef, tag)
+        key = "C20.B64:decode:padding-indifferent:url_safe=%s%s" % (flag, tag)
         (rep.ok if okp else rep.bad)("C20.B64", key, cb.where(0) if cb else "", "%s is built with DecodePaddingMode::Indifferent (padded and unpadded encoder outputs both decode)" % cdef
                                      + ("" if okp else " — VIOLATED"))
 
